@@ -237,6 +237,10 @@ func (api *API) mapEncodeStructFields(
 func (api *API) mapEncodeSlice(ctx context.Context, value reflect.Value, valueType reflect.Type,
 	ts TypeSettings, opts *options) (any, error) {
 	if ts.ObjectType() != nil {
+		// the object form holds the hex string of the bytes: there is none for a slice or array of other elements
+		if valueType.Elem().Kind() != reflect.Uint8 {
+			return nil, ierrors.Errorf("can't encode %s with an object type: only byte slices and byte arrays have such a map form", valueType)
+		}
 		m := orderedmap.New()
 		m.Set(keyType, ts.ObjectType())
 		fieldKey := keyDefaultSliceArray
